@@ -41,6 +41,9 @@ class DPFS(NamedTuple):
         for lvl in range(1, 4):
             offs = 0x8 + ((lvl - 1) * 0x18)
             block_size_log2 = readle(data[offs+0x10:offs+0x14])
+            if block_size_log2 > 0x3F:
+                # the exponent comes from the file: 1 << 0xFFFFFFFF is a 512 MiB integer
+                raise InvalidHeaderError(f'level {lvl} block size exponent is too large ({block_size_log2:#x})')
             level_data = LevelData(offset=readle(data[offs:offs+0x8]),
                                    size=readle(data[offs+0x8:offs+0x10]),
                                    block_size_log2=block_size_log2,
